@@ -1,4 +1,5 @@
 import Nstd.Json.Spec
+import Nstd.Json.LemmasTables
 /-
   Invariant of the tokenizer / parser: the cursor is a suffix of the buffer that still holds
   the NUL, the line counter equals the number of separators passed, the cursor never sits
@@ -232,13 +233,10 @@ theorem readStr_cons (f line : Nat) (acc : List Byte) (c : Byte) (r : List Byte)
       match r with
       | [] => .oob
       | e :: r' =>
-        if e = 34 ∨ e = 92 ∨ e = 47 then readStr f line (acc ++ [e]) r'
-        else if e = 98 then readStr f line (acc ++ [8]) r'
-        else if e = 102 then readStr f line (acc ++ [12]) r'
-        else if e = 110 then readStr f line (acc ++ [10]) r'
-        else if e = 114 then readStr f line (acc ++ [13]) r'
-        else if e = 116 then readStr f line (acc ++ [9]) r'
-        else if e = 117 then
+        match unesc e with
+        | some b => readStr f line (acc ++ [b]) r'
+        | none =>
+        if e = 117 then
           (hex4 line 4 [] r').bind fun (k, r2) =>
             let w1 := scanHex k
             if w1 &&& 0xF800 = 0xD800 ∧ w1 &&& 0xFC00 = 0xD800 then
@@ -315,24 +313,13 @@ theorem readStr_post (buf : List Byte) : ∀ (f line : Nat) (acc r : List Byte),
           have simple : ∀ (a : List Byte), e ≠ 0 → e ≠ 10 → e ≠ 13 →
               Post buf (fun x => Pos buf x.1 x.2.2 ∧ x.2.2.length < (c :: e :: r').length) (readStr f line a r') :=
             fun a e0 e10 e13 => Post_lt (ih _ a r' (by omega) (hr.step e0 e10 e13)) (Nat.le_of_lt hlen)
-          by_cases e1 : e = 34 ∨ e = 92 ∨ e = 47
-          · simp only [e1, if_true]; exact simple _ (by omega) (by omega) (by omega)
-          simp only [e1, if_false]
-          by_cases e2 : e = 98
-          · simp only [e2, if_true]; subst e2; exact simple _ (by decide) (by decide) (by decide)
-          simp only [e2, if_false]
-          by_cases e3 : e = 102
-          · simp only [e3, if_true]; subst e3; exact simple _ (by decide) (by decide) (by decide)
-          simp only [e3, if_false]
-          by_cases e4 : e = 110
-          · simp only [e4, if_true]; subst e4; exact simple _ (by decide) (by decide) (by decide)
-          simp only [e4, if_false]
-          by_cases e5 : e = 114
-          · simp only [e5, if_true]; subst e5; exact simple _ (by decide) (by decide) (by decide)
-          simp only [e5, if_false]
-          by_cases e6 : e = 116
-          · simp only [e6, if_true]; subst e6; exact simple _ (by decide) (by decide) (by decide)
-          simp only [e6, if_false]
+          cases hu : unesc e with
+          | some b =>
+            simp only [hu]
+            obtain ⟨u0, u10, u13, _⟩ := unesc_plain hu
+            exact simple _ u0 u10 u13
+          | none =>
+          simp only [hu]
           by_cases e7 : e = 117
           · simp only [e7, if_true]; subst e7
             have hr' : Pos buf line r' := hr.step (by decide) (by decide) (by decide)
